@@ -26,6 +26,63 @@ SITES = [
 ]
 
 
+def decoded(s, ctx):
+    """what a string literal stands for where it is used: itself, or -- as the template of (format #f ...) -- the text that
+    format prints for it (`~~` is one tilde, `~%` a newline; other directives are kept as written)"""
+    items = list(s.items)
+    if ctx != "format-template":
+        return items
+    out, i = [], 0
+    while i < len(items):
+        if items[i] == 126 and i + 1 < len(items) and items[i + 1] == 126:
+            out.append(126); i += 2
+        elif items[i] == 126 and i + 1 < len(items) and items[i + 1] == 37:
+            out.append(10); i += 2
+        else:
+            out.append(items[i]); i += 1
+    return out
+
+
+def seq_eq(xs, ys):
+    conj = []
+    for a_, b_ in zip(xs, ys):
+        if isinstance(a_, int) and isinstance(b_, int):
+            if a_ != b_:
+                return False
+        elif is_sym(a_) and is_sym(b_) and a_.eq(b_):
+            continue
+        else:
+            conj.append(a_ == b_)
+    return b_and(*conj)
+
+
+def holds_text(data, target, whole):
+    """guard: some string literal of the program decodes to exactly `target` (whole) / contains it as a contiguous run"""
+    from .usertext import walk_strings
+    lits = []
+    walk_strings(data, lits)
+    alts = []
+    n = len(target)
+    for s_, ctx_ in lits:
+        d_ = decoded(s_, ctx_)
+        if whole:
+            if len(d_) == n:
+                alts.append(seq_eq(d_, target))
+        else:
+            for i in range(len(d_) - n + 1):
+                alts.append(seq_eq(d_[i:i + n], target))
+    return b_or(*alts)
+
+
+def concrete_holds(text, target, whole):
+    from scheme.reader import read_all, ReadError
+    try:
+        data = read_all([ord(c) for c in text])
+    except ReadError:
+        return False
+    return holds_text(data, [ord(c) for c in target], whole) is True
+
+
 def run(ctx, rep, tier):
     B = Bench(ctx, rep)
     known = {k["class"] for k in vlib.known_for(PID)}
@@ -67,6 +124,18 @@ def run(ctx, rep, tier):
                 meant_char = (us[0] - 48) * 64 + (us[1] - 48) * 8 + (us[2] - 48)
             r = B.parse(spec, extra_assume=extra)
             bad_total, beyond_total, reach, lost_total = False, False, False, False
+            value_wrong = False
+            inq_pre = pre.rsplit("'", 1)[-1]
+            fmt_site = site.startswith("format-literal")
+            whole_site = not (site.startswith("format") or site in ("strftime-selector", "xattr-directive"))
+            if pair:
+                targets = [us[:k], us[k:]]
+            elif whole_site:
+                targets = [[ord(c) for c in inq_pre] + us]
+            elif fmt_site:
+                targets = [[ord(c) for c in inq_pre] + us]
+            else:
+                targets = []
             witness_info = None
             n_prog = 0
             for g, v in r.alts:
@@ -104,6 +173,8 @@ def run(ctx, rep, tier):
                                       lost_total = b_or(lost_total, g_all)
                                       witness_info = "user characters do not reach any string literal"
                                   bad_total = b_or(bad_total, b_and(g_all, a["bad"]))
+                                  for tg in targets:
+                                      value_wrong = b_or(value_wrong, b_and(g_all, b_not(holds_text(a["data"], tg, whole_site))))
                                   beyond_total = b_or(beyond_total, b_and(g_all, a["bad_beyond"]))
             tag = "%s:k%d" % (site, k)
             res0, _ = B.solve(tag + ":reach", r.assume, reach)
@@ -142,6 +213,21 @@ def run(ctx, rep, tier):
                 else:
                     rep.violation("user-text-lost:" + site.split(":")[0], "the user string %r of %r does not appear in the emitted program (site %s)" % (user, text, site),
                                   dict(input=text, native_scheme=d.get("scheme", "")[-400:]))
+            # the decoded value of the literal is exactly the user text (whole-value sites) / literal format text is printed
+            # verbatim (format sites, text without directive or escape introducers): nothing added, doubled, dropped or folded
+            if targets:
+                plain = [z3.And(u != 37, u != 92) for u in us] if fmt_site else []
+                res4, m4 = B.solve(tag + ":decoded-value-is-the-user-text", list(r.assume) + plain, b_and(value_wrong, b_not(bad_total)))
+                if res4 == z3.sat:
+                    text = model_string(m4, spec)
+                    user = "".join(chr(model_char(m4, u)) for u in us)
+                    d = B.ctx.run_native([text], "debug")[0]
+                    want = [user[:k], user[k:]] if pair else [inq_pre + user]
+                    if d.get("scheme") and not all(concrete_holds(d["scheme"], w_, whole_site) for w_ in want):
+                        rep.violation("user-text-altered:" + site.split(":")[0], "%r: no string literal of the emitted program stands for the user text %r (site %s)" % (text, want, site),
+                                      dict(input=text, native_scheme=d.get("scheme", "")[-400:]))
+                    else:
+                        rep.inconclusive.append("witness %r for altered user text at site %s does not reproduce natively" % (text, site))
             # beyond plain missing escaping: a character that is not itself special must never be read as syntax
             res2, m2 = B.solve(tag + ":no-new-special-characters", r.assume, beyond_total)
             if res2 == z3.sat:
